@@ -55,13 +55,28 @@ SelectByMask(mask, t1, t2) ==          \* interleave: t1 feeds the TRUE position
 ExtPart(mask, t) == LET pos == Positions(mask, TRUE)  IN [j \in 1..Len(pos) |-> t[pos[j]]]
 IntPart(mask, t) == LET pos == Positions(mask, FALSE) IN [j \in 1..Len(pos) |-> t[pos[j]]]
 
-Geom(full, mask) == [shape |-> ExtPart(mask, full), internal |-> IntPart(mask, full), mask |-> mask]
-Full(G)          == SelectByMask(G.mask, G.shape, G.internal)     \* StorageBase.full_shape
-Size(G)          == Prod(G.shape)                                 \* StorageBase.size
-WellFormed(G)    == /\ Len(G.mask) = Len(G.shape) + Len(G.internal)
-                    /\ Count(G.mask, Len(G.mask), TRUE) = Len(G.shape)
-                    /\ \A k \in DOMAIN G.shape : G.shape[k] >= 1
-                    /\ \A k \in DOMAIN G.internal : G.internal[k] >= 1
+(* A geometry record carries, besides shape / internal / mask, what follows from them (computed once):   *)
+(*   full = select_by_mask(mask, shape, internal) (StorageBase.full_shape), extpos / intpos = the          *)
+(*   positions of the external / internal axes in the full shape, istrides = strides of the internal shape *)
+Geom(full, mask) ==
+    LET ep == Positions(mask, TRUE)
+        ip == Positions(mask, FALSE)
+        internal == [j \in 1..Len(ip) |-> full[ip[j]]]
+    IN  [shape |-> [j \in 1..Len(ep) |-> full[ep[j]]], internal |-> internal, mask |-> mask,
+         full |-> full, extpos |-> ep, intpos |-> ip, istrides |-> Strides(internal)]
+Complete(g)      == Geom(SelectByMask(g.mask, g.shape, g.internal), g.mask)   \* from [shape, internal, mask]
+Basic(G)         == [shape |-> G.shape, internal |-> G.internal, mask |-> G.mask]
+Full(G)          == G.full
+ExtOf(G, p)      == [j \in DOMAIN G.extpos |-> p[G.extpos[j]]]               \* external part of a full index
+IntOf(G, p)      == [j \in DOMAIN G.intpos |-> p[G.intpos[j]]]               \* internal part of a full index
+Size(G)          == Prod(G.shape)                                             \* StorageBase.size
+WellFormedBasic(g) == /\ Len(g.mask) = Len(g.shape) + Len(g.internal)
+                      /\ Count(g.mask, Len(g.mask), TRUE) = Len(g.shape)
+                      /\ \A k \in DOMAIN g.shape : g.shape[k] >= 1
+                      /\ \A k \in DOMAIN g.internal : g.internal[k] >= 1
+WellFormed(G)    == /\ WellFormedBasic(G)
+                    /\ G = Complete(G)
+                    /\ G.shape = ExtPart(G.mask, G.full) /\ G.internal = IntPart(G.mask, G.full)
 
 ---------------------------------------------------------------------------
 (* values *)
@@ -98,7 +113,7 @@ SliceIndices(s, n) == LET t == SliceTriple(s, n) IN RangeSeq(t[1], t[2], t[3])  
 
 (* normalize_key: every component is checked against the size of ITS OWN axis; for a dump the key   *)
 (* ranges over the external axes only, for __getitem__ over the full interleaved shape.             *)
-KeySizes(G, forDump) == IF forDump THEN G.shape ELSE Full(G)
+KeySizes(G, forDump) == IF forDump THEN G.shape ELSE G.full
 IntOK(c, n)          == -n <= c[1] /\ c[1] < n
 NormalizeKey(G, key, forDump) ==
     LET sizes == KeySizes(G, forDump) IN
@@ -113,7 +128,8 @@ AxisIndices(c, n) == IF IsSlice(c) THEN SliceIndices(c, n) ELSE c
 Cells(nkey, sizes) ==
     LET ax   == [k \in DOMAIN nkey |-> AxisIndices(nkey[k], sizes[k])]
         dims == [k \in DOMAIN nkey |-> Len(ax[k])]
-    IN  [i \in 1..Prod(dims) |-> LET q == Unravel(i - 1, dims) IN [k \in DOMAIN nkey |-> ax[k][q[k] + 1]]]
+        str  == Strides(dims)
+    IN  [i \in 1..Prod(dims) |-> [k \in DOMAIN nkey |-> ax[k][(((i - 1) \div str[k]) % dims[k]) + 1]]]
 SlicedShape(nkey, sizes) ==        \* integer components drop their axis, slices keep theirs
     LET pos == SelectSeq([k \in 1..Len(nkey) |-> k], LAMBDA k : IsSlice(nkey[k]))
     IN  [j \in 1..Len(pos) |-> Len(SliceIndices(nkey[pos[j]], sizes[pos[j]]))]
@@ -135,8 +151,8 @@ PersistReopen(st) == Reopen(Persist(st))
 ---------------------------------------------------------------------------
 (* observers *)
 Elem(G, w, p) ==                 \* p: full index
-    LET b == w[ExtPart(G.mask, p)] IN
-    IF b = Missing THEN MaskedV ELSE b.data[Lin(IntPart(G.mask, p), G.internal) + 1]
+    LET b == w[ExtOf(G, p)] IN
+    IF b = Missing THEN MaskedV ELSE b.data[Dot(IntOf(G, p), G.istrides) + 1]
 
 GetItem(G, w, key) ==
     LET nk == NormalizeKey(G, key, FALSE) IN
@@ -167,7 +183,7 @@ Observe(G, w, gkeys) ==
      ta_true  |-> ToArray(G, w, "true"),
      ta_false |-> ToArray(G, w, "false"),
      mask     |-> MaskArr(G, w),
-     ml       |-> MaskLinear(G, w),
+     ml       |-> ArrOut(<<Size(G)>>, MaskLinear(G, w)),
      has      |-> [i \in 1..Size(G) |-> HasIndex(G, w, i - 1)],
      gfi      |-> [i \in 1..Size(G) |-> GetFromIndex(G, w, i - 1)]]
 
@@ -212,11 +228,11 @@ LawErrors(G, w, K) ==
 (* unwritten => masked, written => the element of the dumped block (read-your-writes, per cell) *)
 LawCells(G, w) ==
     \A p \in IndexSet(Full(G)) :
-        LET b == w[ExtPart(G.mask, p)]
+        LET b == w[ExtOf(G, p)]
             r == GetItem(G, w, IntKey(p))
         IN  /\ r.exc = "" /\ r.shape = <<>>
             /\ (b = Missing) => r.data = <<MaskedV>>
-            /\ (b # Missing) => r.data = <<b.data[Lin(IntPart(G.mask, p), G.internal) + 1]>> /\ r.data[1] > 0
+            /\ (b # Missing) => r.data = <<b.data[Lin(IntOf(G, p), G.internal) + 1]>> /\ r.data[1] > 0
 
 (* a negative integer addresses the same element as its non-negative equivalent *)
 LawNegative(G, w) ==
@@ -267,8 +283,8 @@ LawDump(G, w0, key, v) ==
     /\ d.exc # "" => d.w = w0
     /\ d.exc = "" => /\ \A p \in DOMAIN w0 : IF p \in DumpCells(G, key) THEN d.w[p] = v ELSE d.w[p] = w0[p]
                      /\ \A p \in IndexSet(Full(G)) :
-                           ExtPart(G.mask, p) \in DumpCells(G, key) =>
-                              GetItem(G, d.w, IntKey(p)).data = <<v.data[Lin(IntPart(G.mask, p), G.internal) + 1]>>
+                           ExtOf(G, p) \in DumpCells(G, key) =>
+                              GetItem(G, d.w, IntKey(p)).data = <<v.data[Lin(IntOf(G, p), G.internal) + 1]>>
     /\ (d.exc = "IndexError") <=>
           (\/ Len(key) # Len(G.shape)
            \/ \E k \in DOMAIN key : IsInt(key[k]) /\ ~(-G.shape[k] <= key[k][1] /\ key[k][1] < G.shape[k]))
